@@ -699,3 +699,56 @@ Proof.
   cbn zeta. split; [|vm_compute; repeat split].
   repeat constructor; unfold is_bytes; repeat constructor; lia.
 Qed.
+
+Definition ex_sp_upper : bytes := [48; 55; 67; 56].      (* "07C8" *)
+
+Lemma ex_tok_bytes : is_bytes ex_tok.
+Proof. unfold is_bytes, ex_tok. repeat constructor; lia. Qed.
+
+(** Non-vacuity of the premises of [logout_final], [removed_final],
+    [expired_final], [never_issued] and [session_window_complete]. *)
+Example final_premises_satisfiable :
+  let h1 := [SNew 1000 ex_tok [97]] in
+  let h2 := [SRestart 1300; SCheck 1400 ex_sp_upper; SNew 1500 ex_raw [98]] in
+  Forall wf_new h1 /\
+  authenticates 3600 1200 ex_sp (srun 3600 s_init h1) = true /\
+  hex_decode_prefix ex_sp_upper = hex_decode_prefix ex_sp /\
+  Forall (fun o => wf_new o /\ forall t0 raw u, o = SNew t0 raw u -> raw <> hex_decode_prefix ex_sp) h2 /\
+  Forall (fun o => wf_new o /\ ~ issues ex_sp o) h2 /\
+  removes ex_sp (SLogout 1200 ex_sp) /\
+  snd (check_session 3600 5000 ex_sp (srun 3600 s_init h1)) = CSExpired /\
+  (* completeness: requests and logout requests with another spelling, a restart *)
+  Forall wf_new (h1 ++ [SCheck 1100 ex_sp_upper; SLogout 1150 ex_sp_upper; SRestart 1200]) /\
+  Forall (fun o => spares ex_tok o /\ (forall t', op_time o = Some t' -> 1000 <= t' <= 1300))
+         [SCheck 1100 ex_sp_upper; SLogout 1150 ex_sp_upper; SRestart 1200].
+Proof.
+  cbn zeta.
+  assert (Hb : is_bytes ex_tok) by apply ex_tok_bytes.
+  assert (Hr : is_bytes ex_raw) by (unfold is_bytes, ex_raw; repeat constructor; lia).
+  assert (Hne : ex_raw <> hex_decode_prefix ex_sp) by (vm_compute; discriminate).
+  assert (Hni : forall o, (exists n, o = SRestart n) \/ (exists n sp, o = SCheck n sp) -> ~ issues ex_sp o).
+  { intros o [[n ->]|(n & sp & ->)] (t0 & raw & u & E & _); discriminate. }
+  split; [repeat constructor; exact Hb|].
+  split; [vm_compute; reflexivity|]. split; [vm_compute; reflexivity|].
+  split.
+  { constructor; [|constructor; [|constructor; [|constructor]]].
+    - split; [exact I|intros; discriminate].
+    - split; [exact I|intros; discriminate].
+    - split; [exact Hr|]. intros t0 raw u [= _ <- _]. exact Hne. }
+  split.
+  { constructor; [|constructor; [|constructor; [|constructor]]].
+    - split; [exact I|apply Hni; eauto].
+    - split; [exact I|apply Hni; eauto].
+    - split; [exact Hr|]. intros (t0 & raw & u & [= _ <- _] & E). vm_compute in E. discriminate. }
+  split; [right; eauto|]. split; [vm_compute; reflexivity|].
+  split; [repeat constructor; exact Hb|].
+  assert (Hsp : forall o, (forall sp, o <> SRemove sp) -> (forall n, o <> SLogout n (hex_encode ex_tok)) ->
+                          (forall t r u, o <> SNew t r u) -> spares ex_tok o).
+  { intros o H1 H2 H3. split; [intros [->|[n ->]]; [eapply H1|eapply H2]; reflexivity|].
+    split; [intros sp ->; exfalso; eapply H1; reflexivity|intros t r u ->; exfalso; eapply H3; reflexivity]. }
+  constructor; [|constructor; [|constructor; [|constructor]]].
+  - split; [apply Hsp; intros; discriminate|]. cbn. intros t' [= <-]. lia.
+  - split; [apply Hsp; intros; try discriminate|cbn; intros t' [= <-]; lia].
+  - split; [apply Hsp; intros; discriminate|]. cbn. intros t' [= <-]. lia.
+Qed.
+
